@@ -3,6 +3,24 @@
 (patch.diff, the demonstration, meta.json) and regenerate seeded/README.md."""
 import json, os, shutil, sys, glob
 
+# seeded changes that a first version of the checks did NOT catch, and what was strengthened for each (DESIGN 0.5)
+MISSED_AT_FIRST = {
+ "C09-1": "the simulated kernel reported POLLOUT|POLLERR for a full pipe whose reader had gone (Linux: POLLERR alone); simk corrected, poll-for-IN added to the stream family, stream family added to C09",
+ "C10-1": "user handles / FILEs that are themselves descriptors 1 or 2 were not enumerated; added to the wiring family",
+ "C15-2": "the leak showed at the failed start's return (owned by C04/C05) and the replay stopped there; in the destroy family a failed start is now judged after destroy",
+ "C04-1": "a handle naming a CLOSED standard descriptor was not enumerated; added (expected: EBADF, nothing left behind)",
+ "C04-2": "all failed starts lead to one model state and TLC kept one history for it; MC_Restart with a history-sensitive view (plus simulation passes and the free family) added",
+ "C05-1": "caught by C10's wiring family only; the wiring family was added to C05",
+ "C05-2": "caught by C04 only; the 'child left behind' clause of FaultTrace now also carries the C05 label",
+ "C16-2": "the library's string sink was not modelled; added with initial content and allocation failure at growth step k",
+ "C01-1": "the change calls usleep(), which the seam did not cover (infrastructure error, no verdict); sleep/nanosleep now wait in virtual time, and a child that closes its exit handle but lives on (ChildCloseX) was added to the model",
+ "C01-2": "caught by C06 (waitpid(-1) monitor) only: the simulated kernel refused waitpid(-1) instead of emulating it; it now reaps some zombie as Linux does, so the stolen status shows; two-handle family MC_Two added",
+ "C03-1": "the allocation kept in a static cache differed first (allocation count) and ended the script before the second start; allocation-count differences no longer end a script; family env2 (caller changes cwd/env/limit between two starts) added",
+ "C11-2": "the change lists /proc/self/fd with opendir/readdir, which the seam did not cover (infrastructure error); added to the seam; the interleaving family added to C11",
+ "C20-1": "fcntl(F_SETFD) was not a yield point, so the pipe()/FD_CLOEXEC window was never interleaved with another thread's fork; divergences during interleaved calls were attributed to the inner call's property",
+}
+
+
 def imp(pid, k, resfile, earlier=None):
     src = "/tmp/mut/%s/MUTANT%s" % (pid, k)
     dst = "/verif/seeded/%s-%s" % (pid, k)
@@ -26,9 +44,9 @@ def imp(pid, k, resfile, earlier=None):
             "checks_run": {p: {"detected": c["detected"], "exit": c["exit"], "wall_s": c["wall_s"], "first_violation": (c["first"][1].strip()[:400] if len(c["first"]) > 1 else "")}
                            for p, c in res.get("checks", {}).items()},
             "how_run": "python3 mutcheck.py <dir> <properties>: scratch worktree of /repo HEAD, git apply patch.diff, run.sh on clean and changed tree, cmake+ctest on the changed tree, check.py check <P> --tier quick with VERIF_REPO=<changed tree>"}
-    if earlier and os.path.exists(earlier):
-        e = json.load(open(earlier))
-        meta["first_round"] = {p: {"detected": c["detected"]} for p, c in e.get("checks", {}).items()}
+    key = "%s-%s" % (pid, k)
+    if key in MISSED_AT_FIRST:
+        meta["missed_at_first"] = MISSED_AT_FIRST[key]
     json.dump(meta, open(os.path.join(dst, "meta.json"), "w"), indent=1)
     print("kept", dst)
 
@@ -38,10 +56,7 @@ def readme():
         d = json.load(open(m))
         det = [p for p, c in d["checks_run"].items() if c["detected"]]
         miss = [p for p, c in d["checks_run"].items() if not c["detected"]]
-        first = d.get("first_round", {})
-        note = ""
-        if first and any(not v["detected"] for v in first.values()) and det:
-            note = "missed at first by %s; caught after strengthening" % ",".join(p for p, v in first.items() if not v["detected"])
+        note = ("missed at first: " + d["missed_at_first"]) if d.get("missed_at_first") else ""
         rows.append("| %s | %s | %s | %s | %s |" % (d["id"], d["breaks_property"], ", ".join(det) or "-", ", ".join(miss) or "-", note))
     with open("/verif/seeded/README.md", "w") as f:
         f.write("# Seeded changes\n\nEach directory holds `patch.diff` (never applied to /repo itself), the sub-agent's demonstration (`demo.*`, `run.sh <tree>`), and `meta.json`.\n"
